@@ -11,27 +11,29 @@
 (* iterator is eventually exhausted, i.e. every retained key in range is   *)
 (* eventually yielded; once exhausted it stays exhausted.                  *)
 (***************************************************************************)
-EXTENDS SlimHist
+EXTENDS SlimHist, Json
 
-VARIABLES yielded
+VARIABLES yielded, sched
 
-Keys == << <<>>, <<97>>, <<97, 98>>, <<98>>, <<98, 255>> >>
-Vals == << <<1>>, <<2>>, <<2>>, <<3>>, <<4>> >>
-Shared == Content(Keys, Vals, TRUE, <<1, 0, 0, 1>>, TRUE)
+Keys == << <<>>, <<97>>, <<97, 98>>, <<98>>, <<98, 255>>, <<99>>, <<255, 0>> >>
+Vals == << <<1>>, <<2>>, <<2>>, <<3>>, <<4>>, <<4>>, <<5>> >>
+Shared == Content(Keys, Vals, TRUE, <<0, 0, 0, 1>>, TRUE)
 Starts == << <<97>>, <<>> >>
 Incl == <<FALSE, TRUE>>
 
-vars == <<inst, iters, pool, pc, last, yielded>>
+vars == <<inst, iters, pool, pc, last, yielded, sched>>
 
 Init ==
   /\ inst = Shared /\ pool = <<>> /\ pc = Idle /\ last = ""
   /\ iters = [id \in 1..2 |-> [rest |-> RefScanPos(Keys, Shared.R, Starts[id], Incl[id], FALSE, <<>>, FALSE), wv |-> TRUE]]
   /\ yielded = [id \in 1..2 |-> <<>>]
+  /\ sched = <<>>
 
 Advance(id) ==
   /\ iters[id].rest # <<>>
   /\ yielded' = [yielded EXCEPT ![id] = Append(@, IterYield(id)[1])]
   /\ IterNext(id)
+  /\ sched' = Append(sched, id)
   /\ UNCHANGED <<inst, pool, pc, last>>
 
 \* next() on an exhausted iterator: nil, and it stays exhausted
@@ -52,6 +54,10 @@ Want(id) == LET ps == RefScanPos(Keys, Shared.R, Starts[id], Incl[id], FALSE, <<
 NoInterference ==
   /\ inst = Shared
   /\ \A id \in 1..2 : yielded[id] = SubSeq(Want(id), 1, Len(yielded[id]))
+
+\* every complete interleaving of the two iterators' next() calls is printed and replayed
+\* on real iterators (B3): the harness advances real iterator `id` for each entry
+Emit == (\A id \in 1..2 : iters[id].rest = <<>>) => PrintT(<<"SCHED", ToJson(sched)>>)
 
 EventuallyAll == \A id \in 1..2 : <>[](yielded[id] = Want(id) /\ iters[id].rest = <<>>)
 =============================================================================
